@@ -237,3 +237,12 @@ impl InvalidKey {
         InvalidKey { key_bytes, source }
     }
 }
+
+#[cfg(feature = "verif_hooks")]
+pub mod verif_hooks {
+    pub use super::key::ReconKey;
+    pub use super::map_queue::MapOperationQueue;
+    pub use super::{
+        BackpressureStrategy, InvalidKey, MapBackpressure, SupplyBackpressure, ValueBackpressure,
+    };
+}
